@@ -116,3 +116,12 @@ func SelfValidate(maxDepth int) (uint64, string) {
 	}
 	return total, ""
 }
+
+// NewGameFrom builds a game by replaying legal moves.
+func NewGameFrom(start Pos, moves []Move) *Game {
+	g := NewGame(start)
+	for _, m := range moves {
+		g.Push(m)
+	}
+	return g
+}
